@@ -91,6 +91,13 @@ func (rt *rtuTransport) ExecuteRequest(req *pdu) (res *pdu, err error) {
 	// observe inter-frame delays
 	time.Sleep(rt.lastActivity.Add(rt.t35).Sub(time.Now()))
 
+	// the request has only now left the line: give the device the whole
+	// timeout to respond, however long the transmission took
+	err	= rt.link.SetDeadline(time.Now().Add(rt.timeout))
+	if err != nil {
+		return
+	}
+
 	// read the response back from the wire
 	res, err = rt.readRTUFrame()
 
